@@ -14,6 +14,7 @@ import (
 	"path/filepath"
 	"sort"
 	"strings"
+	"time"
 
 	"github.com/ohler55/slip"
 	"verif/harness/lib"
@@ -34,7 +35,9 @@ type c04Shape struct {
 	req  []string
 	opt  []c04Param
 	rest string
-	keys []c04Param
+	// restMarker: "&rest" (also when empty) or "&body"
+	restMarker string
+	keys       []c04Param
 	aok  bool // &allow-other-keys written in the lambda list
 	aux  []c04Param
 	// extraAlpha: further keyword names the vector generator may put in key position (key names of
@@ -75,7 +78,11 @@ func (sh c04Shape) elems(withRest bool) (lisp, wire []string) {
 		}
 	}
 	if sh.rest != "" && withRest {
-		add("&rest", c04Sym("&rest"))
+		m := sh.restMarker
+		if m == "" {
+			m = "&rest"
+		}
+		add(m, c04Sym(m))
 		add(sh.rest, c04Sym(sh.rest))
 	}
 	if len(sh.keys) > 0 {
@@ -95,6 +102,23 @@ func (sh c04Shape) elems(withRest bool) (lisp, wire []string) {
 		}
 	}
 	return
+}
+
+// llWireRaw: the lambda list exactly as it is written for slip (&allow-other-keys only when the
+// shape has it): what DefLambda sees, for the code-level machine `ll impl`.
+func (sh c04Shape) llWireRaw() string {
+	l, w := sh.elems(true)
+	if len(w) > len(l) {
+		// elems appended the model's &allow-other-keys to the wire form only: drop it again
+		aok := c04Sym("&allow-other-keys")
+		for i, x := range w {
+			if x == aok {
+				w = append(append([]string{}, w[:i]...), w[i+1:]...)
+				break
+			}
+		}
+	}
+	return "(" + strings.Join(w, ",") + ")"
 }
 
 func (sh c04Shape) llLisp() string {
@@ -164,7 +188,27 @@ func (sh c04Shape) class() string {
 }
 
 // default constants (stored unevaluated by slip, so only self-evaluating objects)
-var c04Defaults = [][2]string{{"101", "i:101"}, {`"dflt"`, "s:" + lib.Hex("dflt")}, {":dk", c04Kw("dk")}, {"-7", "i:-7"}}
+// slip documents the default as a *value*: a list or a symbol written as default is the default
+// itself, not a form to evaluate.
+var c04Defaults = [][2]string{{"101", "i:101"}, {`"dflt"`, "s:" + lib.Hex("dflt")}, {":dk", c04Kw("dk")}, {"-7", "i:-7"},
+	{"(1 :dk)", "(i:1," + c04Kw("dk") + ")"}, {"zed", c04Sym("zed")}}
+
+// c04AuxParams: the &aux variables of a shape. variant 0: constants; variant 1: initial forms that
+// depend on the parameters before them (evaluated left to right at call time): x1 = (list 0 p…)
+// over every earlier parameter, x2 = (list x1 (quote q) 7).
+func c04AuxParams(sh c04Shape, variant int) []c04Param {
+	if variant == 0 {
+		return []c04Param{{name: "x1", defLisp: "55", defWire: "i:55"}, {name: "x2"}}
+	}
+	names, _ := sh.params()
+	l, w := "(list 0", "("+c04Sym("list")+",i:0"
+	for _, n := range names {
+		l += " " + n
+		w += "," + c04Sym(n)
+	}
+	return []c04Param{{name: "x1", defLisp: l + ")", defWire: w + ")"},
+		{name: "x2", defLisp: "(list x1 (quote q) 7)", defWire: "(" + c04Sym("list") + "," + c04Sym("x1") + ",(" + c04Sym("quote") + "," + c04Sym("q") + "),i:7)"}}
+}
 
 func c04MkParams(prefix string, n int, defMask int, salt int) []c04Param {
 	var ps []c04Param
@@ -196,10 +240,13 @@ func c04AllShapes() []c04Shape {
 								sh.opt = c04MkParams("b", o, om, r)
 								if rest == 1 {
 									sh.rest = "r"
+									if (r+o+k+km+aux)%2 == 1 {
+										sh.restMarker = "&body"
+									}
 								}
 								sh.keys = c04MkParams("k", k, km, r+o+1)
 								if aux == 1 {
-									sh.aux = []c04Param{{name: "x1", defLisp: "55", defWire: "i:55"}, {name: "x2"}}
+									sh.aux = c04AuxParams(sh, 0)
 								}
 								out = append(out, sh)
 							}
@@ -224,7 +271,21 @@ func c04SweepShapes() []c04Shape {
 	key1d := []c04Param{d("k1", ":dk", c04Kw("dk"))}
 	key2 := []c04Param{{name: "k1"}, d("k2", "102", "i:102")}
 	aux := []c04Param{d("x1", "55", "i:55"), {name: "x2"}}
+	dep := func(sh c04Shape) c04Shape { sh.aux = c04AuxParams(sh, 1); return sh }
+	// &aux initial forms that are a variable or a call without arguments (listed deviation c04AuxSig)
+	auxVar := []c04Param{d("x1", "a1", c04Sym("a1"))}
+	auxCall := []c04Param{d("x1", "(list)", "("+c04Sym("list")+")")}
+	auxBoth := []c04Param{d("x1", "b1", c04Sym("b1")), d("x2", "(list)", "("+c04Sym("list")+")")}
+	body := func(sh c04Shape) c04Shape { sh.restMarker = "&body"; return sh }
 	return []c04Shape{
+		// &body is the same marker as &rest, in every section it can follow
+		body(c04Shape{rest: "r"}), body(c04Shape{req: req1, rest: "r"}), body(c04Shape{opt: opt1d, rest: "r"}),
+		body(c04Shape{req: req1, opt: opt2, rest: "r"}), body(c04Shape{opt: opt1, rest: "r", keys: key1}),
+		body(c04Shape{req: req1, opt: opt1d, rest: "r", aux: aux}),
+		// &aux initial forms that use the parameters before them
+		dep(c04Shape{}), dep(c04Shape{req: req2}), dep(c04Shape{opt: opt2}), dep(c04Shape{rest: "r"}), dep(c04Shape{keys: key2}),
+		dep(c04Shape{req: req1, opt: opt1d, rest: "r", keys: key2}),
+		{req: req1, aux: auxVar}, {aux: auxCall}, {req: req1, opt: opt1d, aux: auxBoth},
 		{},
 		{req: req1}, {req: req2}, {req: []string{"a1", "a2", "a3"}},
 		{opt: opt1}, {opt: opt1d}, {opt: opt2},
@@ -556,9 +617,11 @@ func c04ArityCondition(o lib.Outcome) string {
 }
 
 type c04Runner struct {
-	scope  *slip.Scope
-	defuns map[string]string // ll lisp -> function name
-	n      int
+	scope       *slip.Scope
+	defuns      map[string]string // ll lisp -> function name
+	n           int
+	flavorReady bool
+	lastDefs    string // definitions the last form of a further context relies on (for the replay text)
 }
 
 func newC04Runner() *c04Runner {
@@ -611,7 +674,7 @@ func (r *c04Runner) form(sh c04Shape, args []c04Arg, ctx string) (setup, form st
 	case "apply":
 		return "", "(apply " + lam + " (list" + sp + al + "))"
 	}
-	panic(ctx)
+	return r.formMore(sh, args, ctx)
 }
 
 // c04SelfEvaluating: no argument is a quoted form (macros see the forms, not the values).
@@ -625,13 +688,29 @@ func c04SelfEvaluating(args []c04Arg) bool {
 }
 
 func (r *c04Runner) run(sh c04Shape, args []c04Arg, ctx string) (string, string, string) {
+	outs, shown, msg := r.runAll(sh, args, ctx)
+	return outs[0], shown, msg
+}
+
+// runAll evaluates the case in the context and returns one canonical outcome per observed call
+// (one, except in the multi-call contexts of c04_ctx.go).
+func (r *c04Runner) runAll(sh c04Shape, args []c04Arg, ctx string) ([]string, string, string) {
 	setup, form := r.form(sh, args, ctx)
 	if setup != "" {
 		if o := lib.EvalString(r.scope, setup); !o.Ok {
-			return "err setup:" + o.Class, setup, o.Msg
+			return []string{"err setup:" + o.Class}, setup, o.Msg
 		}
 	}
 	o := lib.EvalString(slip.NewScope(), form)
+	for _, m := range c04MoreContexts {
+		if m == ctx {
+			shown := form
+			if r.lastDefs != "" {
+				shown = r.lastDefs + " " + form
+			}
+			return c04OutcomesMore(sh, ctx, o), shown, o.Msg
+		}
+	}
 	shown := form
 	if ctx == "defun" || ctx == "defmacro" {
 		names, _ := sh.params()
@@ -641,7 +720,7 @@ func (r *c04Runner) run(sh c04Shape, args []c04Arg, ctx string) (string, string,
 		}
 		shown = "(" + def + " " + r.defuns[key] + " " + sh.llLisp() + " (list " + strings.Join(names, " ") + ")) " + form
 	}
-	return c04Outcome(o), shown, o.Msg
+	return []string{c04Outcome(o)}, shown, o.Msg
 }
 
 // ---------------------------------------------------------------------------------------------
@@ -810,6 +889,29 @@ func c04SplitOutcome(sh c04Shape, reply string, restPart []c04Arg) string {
 	return strings.Join(out, " ")
 }
 
+// c04AuxQuirk: an &aux initial form of the shape is a variable or a call without arguments: the
+// forms slip binds unevaluated (known finding c04AuxSig; only sweep shapes have them)
+func c04AuxQuirk(sh c04Shape) bool {
+	for _, p := range sh.aux {
+		if p.defLisp == "(list)" || strings.HasPrefix(p.defWire, "y:") {
+			return true
+		}
+	}
+	return false
+}
+
+const c04AuxSig = "lambda shape=aux aspect=aux-init-form-not-evaluated"
+
+// c04AuxDepends: an &aux initial form of the shape refers to other parameters
+func c04AuxDepends(sh c04Shape) bool {
+	for _, p := range sh.aux {
+		if strings.HasPrefix(p.defLisp, "(list") {
+			return true
+		}
+	}
+	return false
+}
+
 func c04Nontrivial(cs c04Case, model string) bool {
 	if cs.sh.nkinds() >= 2 {
 		return true
@@ -836,15 +938,19 @@ func c04Lambda(c *lib.Ctx) {
 	nSweep := len(cases)
 	// composite: the full shape space (thorough) or a seeded sample of it (quick)
 	all := c04AllShapes()
-	budget := c.Scale(48, 256)
+	budget := c.Scale(32, 256)
 	if !c.Thorough() {
 		for i := len(all) - 1; i > 0; i-- {
 			j := c.Rng.Intn(i + 1)
 			all[i], all[j] = all[j], all[i]
 		}
-		all = all[:1120]
+		all = all[:800]
 	}
-	for _, sh := range all {
+	for si, sh := range all {
+		if len(sh.aux) > 0 && si%2 == 1 {
+			sh.aux = nil
+			sh.aux = c04AuxParams(sh, 1) // initial forms that depend on the parameters before them
+		}
 		for _, v := range c04Vectors(sh, c.Rng, false, budget) {
 			cases = append(cases, c04Case{sh, v, false})
 		}
@@ -855,37 +961,120 @@ func c04Lambda(c *lib.Ctx) {
 	c.Ev.Coverage["lambda_composite_cases"] = len(cases) - nSweep
 
 	splitListed := c.Findings.Match("C04", c04SplitSig) != nil
-	reqs := make([]string, 0, len(cases)*2)
-	splitIdx := make([]int, len(cases))
-	splitRest := make([][]c04Arg, len(cases))
+	// model requests per case: bind(V), the code-level machine on V, both on the shifted vector V'
+	// (second call of the multi-call contexts), and the split prediction inside the listed construct
+	n := len(cases)
+	reqs := make([]string, 0, n*4+n/4)
+	splitIdx := make([]int, n)
+	splitRest := make([][]c04Arg, n)
 	for i, cs := range cases {
 		reqs = append(reqs, cs.request())
 		splitIdx[i] = -1
 	}
+	for _, cs := range cases {
+		reqs = append(reqs, "ll impl "+cs.sh.llWireRaw()+" "+c04ArgsWire(cs.args))
+	}
+	// the shifted vector is only needed where a multi-call context runs
+	others := append(append([]string{}, c04Contexts[2:]...), c04MoreContexts...)
+	quickComposite := func(i int) bool { return !cases[i].sweep && !c.Thorough() }
+	// the method-chain context defines three methods per case: in the quick tier it takes every third of its turns
+	otherOf := func(i int) string {
+		o := others[i%len(others)]
+		if o == "around" && (i/len(others))%3 != 0 {
+			o = "clos"
+		}
+		return o
+	}
+	needShift := func(i int) bool { return !quickComposite(i) || c04MultiCalls(otherOf(i)) > 1 }
+	shiftIdx := make([]int, n)
 	for i, cs := range cases {
+		shiftIdx[i] = -1
+		if needShift(i) {
+			shiftIdx[i] = len(reqs)
+			reqs = append(reqs, c04Case{cs.sh, c04Shift(cs.args), cs.sweep}.request(),
+				"ll impl "+cs.sh.llWireRaw()+" "+c04ArgsWire(c04Shift(cs.args)))
+		}
+	}
+	for i, cs := range cases {
+		if c04AuxDepends(cs.sh) {
+			continue // the prediction without &rest cannot evaluate an initial form that uses the &rest variable
+		}
 		if rq, rp, ok := c04SplitRequest(cs); ok {
 			splitIdx[i] = len(reqs)
 			splitRest[i] = rp
 			reqs = append(reqs, rq)
 		}
 	}
+	tm := time.Now()
 	replies := c.Model(reqs)
+	c.Ev.Coverage["lambda_model_requests"] = len(reqs)
+	c.Ev.Coverage["lambda_model_seconds"] = float64(int(time.Since(tm).Seconds()*10)) / 10
 
 	runner := newC04Runner()
-	agree, evals := 0, 0
+	ctxTime := map[string]time.Duration{}
+	defer func() {
+		secs := map[string]float64{}
+		for k, d := range ctxTime {
+			secs[k] = float64(int(d.Seconds()*10)) / 10
+		}
+		c.Ev.Coverage["lambda_context_seconds"] = secs
+	}()
+	agree, evals, machineChecks := 0, 0, 0
 	for i, cs := range cases {
 		model := c04ModelOutcome(cs.sh, replies[i], true)
 		if model == "err badLL" {
 			panic("harness bug: the model rejects lambda list " + cs.sh.llLisp())
 		}
+		if strings.HasPrefix(replies[n+i], "bad-request") || replies[n+i] == "err defLambda" || replies[n+i] == "err auxForm" {
+			panic("harness bug: the code-level machine rejects " + cs.sh.llLisp() + ": " + replies[n+i])
+		}
+		machine := c04ImplCanon(cs.sh, replies[n+i])
+		model2, machine2 := "", ""
+		if shiftIdx[i] >= 0 {
+			model2 = c04ModelOutcome(cs.sh, replies[shiftIdx[i]], true)
+			machine2 = c04ImplCanon(cs.sh, replies[shiftIdx[i]+1])
+		}
 		split := ""
 		if splitIdx[i] >= 0 {
 			split = c04SplitOutcome(cs.sh, replies[splitIdx[i]], splitRest[i])
+		} else if _, _, applies := c04Split(cs.sh, cs.args); applies && c04AuxDepends(cs.sh) {
+			split = machine // prediction of the listed deviation taken from the code-level machine
 		}
-		ctxs := c04Contexts
-		if !cs.sweep && !c.Thorough() {
-			// quick composite: lambda + defun always, one of the other contexts in turn
-			ctxs = []string{"lambda", "defun", c04Contexts[2+i%4]}
+		inListed := split != "" && split != model // the listed construct (&rest with &key and a key in the tail)
+		// the code-level machine (regenerated from lambda.go, proved to refine bind outside the listed
+		// construct) must say what the model says — inside the listed construct what the listed rule says
+		machineChecks++
+		ref := model
+		if inListed {
+			ref = split
+		}
+		if !c04SameVerdict(machine, ref) && !c04AuxQuirk(cs.sh) {
+			c.Report(fmt.Sprintf("lambda shape=%s aspect=machine-vs-model", cs.sh.class()), false, map[string]any{
+				"part": "lambda", "sweep": false, "input": "ll impl " + cs.sh.llLisp() + " / " + c04ArgsLisp(cs.args), "context": "model-only",
+				"ll": cs.sh.llLisp(), "args": c04ArgsLisp(cs.args), "request": reqs[n+i],
+				"observed": "Model/LambdaImpl (Lambda.Call as extracted): " + machine, "expected": ref,
+				"expected_from":                                          "model:ll.bind (Theorems.C04Impl.call_refines_bind)",
+				"shape": c04ShapeJSON(cs.sh), "argv": c04ArgsJSON(cs.args)})
+		}
+		ctxs := append(append([]string{}, c04Contexts...), c04MoreContexts...)
+		if !cs.sweep && c.Thorough() {
+			// thorough composite: lambda + defun always, four of the other twelve contexts in turn
+			// (every context sees a third of the cases; the method chain every fourth of its turns)
+			ctxs = []string{"lambda", "defun"}
+			for k := 0; k < 4; k++ {
+				o := others[(i+3*k)%len(others)]
+				if o == "around" && (i/len(others))%4 != 0 {
+					o = "clos"
+				}
+				ctxs = append(ctxs, o)
+			}
+		}
+		if quickComposite(i) {
+			// quick composite: lambda always, defun for every second case, one of the other contexts in turn
+			ctxs = []string{"lambda", otherOf(i)}
+			if i%2 == 0 {
+				ctxs = append(ctxs, "defun")
+			}
 		}
 		key := cs.sh.llLisp() + " " + c04ArgsLisp(cs.args)
 		c.Ev.Case(key, c04Nontrivial(cs, model))
@@ -897,37 +1086,73 @@ func c04Lambda(c *lib.Ctx) {
 			c.Ev.Hist("model_outcome", model)
 		}
 		for _, ctx := range ctxs {
-			if ctx == "defmacro" && !c04SelfEvaluating(cs.args) {
+			if !c04CtxApplies(cs.sh, cs.args, ctx) {
 				continue
 			}
-			impl, form, msg := runner.run(cs.sh, cs.args, ctx)
+			te := time.Now()
+			impls, form, msg := runner.runAll(cs.sh, cs.args, ctx)
+			ctxTime[ctx] += time.Since(te)
 			evals++
-			expected, from := model, "model:ll.bind"
-			inListed := split != "" && split != model // the listed construct (&rest with &key and a key in the tail)
-			if inListed && splitListed && !cs.sweep {
-				// composite cases never are excused: inside the listed construct they are held to the
-				// outcome the listed deviation predicts, everything else as the model says
-				expected, from = split, "model:ll.bind under the listed deviation "+c04SplitSig
-			}
-			aspect := c04Judge(cs.sh, ctx, expected, impl)
+			c.Ev.Hist("context", ctx)
 			if i%(len(cases)/9+1) == 0 && ctx == "lambda" {
-				c.Ev.Sample(map[string]string{"form": form, "impl": impl, "model": model})
+				c.Ev.Sample(map[string]string{"form": form, "impl": impls[0], "model": model})
 			}
-			if aspect == "" {
-				agree++
+			ncalls := c04MultiCalls(ctx)
+			if len(impls) != ncalls && strings.HasPrefix(impls[0], "ok") && strings.HasPrefix(model, "ok") {
+				c.Report(fmt.Sprintf("lambda shape=%s aspect=call-count", cs.sh.class()), cs.sweep, map[string]any{
+					"part": "lambda", "sweep": cs.sweep, "input": form, "context": ctx, "ll": cs.sh.llLisp(), "args": c04ArgsLisp(cs.args),
+					"observed": fmt.Sprintf("%d calls observed: %v", len(impls), impls), "expected": fmt.Sprintf("%d calls", ncalls),
+					"shape": c04ShapeJSON(cs.sh), "argv": c04ArgsJSON(cs.args)})
 				continue
 			}
-			sig := fmt.Sprintf("lambda shape=%s aspect=%s", cs.sh.class(), aspect)
-			if inListed && c04Judge(cs.sh, ctx, split, impl) == "" {
-				sig = c04SplitSig // exactly the listed deviation, nothing else
+			ok := true
+			for j, impl := range impls {
+				// what the j-th observed call must see: the vector itself, then the shifted vector
+				mj, machj := model, machine
+				if j > 0 {
+					mj, machj = model2, machine2
+				}
+				listedJ := inListed
+				devJ := split
+				if ncalls > 1 {
+					// multi-call contexts: the prediction under the listed deviation is the machine's
+					devJ = machj
+					listedJ = cs.sh.rest != "" && len(cs.sh.keys) > 0 && !c04SameVerdict(machj, mj)
+				}
+				expected, from := mj, "model:ll.bind"
+				if listedJ && splitListed && !cs.sweep {
+					// composite cases never are excused: inside the listed construct they are held to the
+					// outcome the listed deviation predicts, everything else as the model says
+					expected, from = devJ, "model:ll.bind under the listed deviation "+c04SplitSig
+				}
+				aspect := c04Judge(cs.sh, ctx, expected, impl)
+				if aspect == "" {
+					continue
+				}
+				ok = false
+				sig := fmt.Sprintf("lambda shape=%s aspect=%s", cs.sh.class(), aspect)
+				if listedJ && c04Judge(cs.sh, ctx, devJ, impl) == "" {
+					sig = c04SplitSig // exactly the listed deviation, nothing else
+				}
+				if cs.sweep && c04AuxQuirk(cs.sh) && c04Judge(cs.sh, ctx, machj, impl) == "" {
+					sig = c04AuxSig // exactly what the code says: the initial form bound as it is written
+				}
+				sent := cs.request()
+				if j > 0 {
+					sent = reqs[shiftIdx[i]]
+				}
+				c.Report(sig, cs.sweep, map[string]any{
+					"part": "lambda", "sweep": cs.sweep, "input": form, "context": ctx, "call": j, "ll": cs.sh.llLisp(), "args": c04ArgsLisp(c04CallArgs(ctx, cs.args, j)),
+					"request": sent, "observed": impl + "  ; " + msg, "expected": expected, "expected_from": from,
+					"relies_on": []string{"SlipVerif.Theorems.C04.bind_ok_iff", "SlipVerif.Theorems.C04.bind_required/optional/rest/key/aux", "SlipVerif.Theorems.C04.parseLL_render", "SlipVerif.Theorems.C04Impl.call_refines_bind"},
+					"shape": c04ShapeJSON(cs.sh), "argv": c04ArgsJSON(cs.args)})
 			}
-			c.Report(sig, cs.sweep, map[string]any{
-				"part": "lambda", "sweep": cs.sweep, "input": form, "context": ctx, "ll": cs.sh.llLisp(), "args": c04ArgsLisp(cs.args),
-				"request": cs.request(), "observed": impl + "  ; " + msg, "expected": expected, "expected_from": from,
-				"relies_on": []string{"SlipVerif.Theorems.C04.bind_ok_iff", "SlipVerif.Theorems.C04.bind_required/optional/rest/key/aux", "SlipVerif.Theorems.C04.parseLL_render"},
-				"shape": c04ShapeJSON(cs.sh), "argv": c04ArgsJSON(cs.args)})
+			if ok {
+				agree++
+			}
 		}
 	}
+	c.Ev.Coverage["lambda_machine_vs_model_checks"] = machineChecks
 	c.Ev.Count("traces_validated_against_impl", evals)
 	c.Ev.Coverage["lambda_agreements"] = agree
 	c.Ev.Coverage["lambda_evaluations"] = evals
@@ -943,7 +1168,7 @@ func c04ShapeJSON(sh c04Shape) map[string]any {
 		}
 		return out
 	}
-	return map[string]any{"req": sh.req, "opt": ps(sh.opt), "rest": sh.rest, "keys": ps(sh.keys), "aok": sh.aok, "aux": ps(sh.aux)}
+	return map[string]any{"req": sh.req, "opt": ps(sh.opt), "rest": sh.rest, "rest_marker": sh.restMarker, "keys": ps(sh.keys), "aok": sh.aok, "aux": ps(sh.aux)}
 }
 
 func c04ArgsJSON(args []c04Arg) []any {
@@ -979,6 +1204,7 @@ func c04ShapeFromJSON(m map[string]any) c04Shape {
 	sh.req = strs(m["req"])
 	sh.opt = ps(m["opt"])
 	sh.rest, _ = m["rest"].(string)
+	sh.restMarker, _ = m["rest_marker"].(string)
 	sh.keys = ps(m["keys"])
 	sh.aok, _ = m["aok"].(bool)
 	sh.aux = ps(m["aux"])
@@ -1001,11 +1227,25 @@ func c04ReplayLambda(c *lib.Ctx, rec map[string]any) {
 	ctx, _ := rec["context"].(string)
 	cs := c04Case{sh, args, false}
 	model := c04ModelOutcome(sh, c.Model([]string{cs.request()})[0], true)
-	impl, form, msg := newC04Runner().run(sh, args, ctx)
-	aspect := c04Judge(sh, ctx, model, impl)
-	fmt.Printf("replay %s\n  observed (implementation): %s  ; %s\n  expected (model ll.bind) : %s\n  aspect: %s\n", form, impl, msg, model, aspect)
-	if aspect != "" {
-		c.Report("replay", false, map[string]any{"input": form, "observed": impl, "expected": model})
+	if ctx == "model-only" {
+		rq, _ := rec["request"].(string)
+		fmt.Printf("replay %s\n  observed (code-level machine): %s\n  expected (model ll.bind): %s\n", rq, c04ImplCanon(sh, c.Model([]string{rq})[0]), model)
+		c.Report("replay", false, map[string]any{"input": rq})
+		return
+	}
+	impls, form, msg := newC04Runner().runAll(sh, args, ctx)
+	model2 := c04ModelOutcome(sh, c.Model([]string{c04Case{sh, c04Shift(args), false}.request()})[0], true)
+	fmt.Printf("replay %s\n", form)
+	for j, impl := range impls {
+		mj := model
+		if j > 0 {
+			mj = model2
+		}
+		aspect := c04Judge(sh, ctx, mj, impl)
+		fmt.Printf("  call %d observed (implementation): %s  ; %s\n  call %d expected (model ll.bind) : %s\n  aspect: %s\n", j, impl, msg, j, mj, aspect)
+		if aspect != "" {
+			c.Report("replay", false, map[string]any{"input": form, "observed": impl, "expected": mj})
+		}
 	}
 }
 
@@ -1031,14 +1271,31 @@ func runC04(c *lib.Ctx) {
 			c04ReplayHistory(c, rec)
 		case "builtin-static":
 			c04ReplayStatic(c, rec)
+		case "builtin-keytail":
+			c04ReplayKeyTail(c, rec)
+		case "malformed":
+			form, _ := rec["input"].(string)
+			o := lib.EvalString(slip.NewScope(), form)
+			fmt.Printf("replay %s\n  observed (implementation): %s %s\n  expected: a condition (malformed lambda-list element)\n", form, c04Outcome(o), o.Msg)
+			if o.Ok {
+				c.Report("replay", false, map[string]any{"input": form})
+			}
 		default:
 			fmt.Println("replay file has no usable case (kind:", rec["kind"], ")")
 		}
 		return
 	}
+	t0 := time.Now()
+	phases := map[string]float64{}
+	lap := func(name string) { phases[name] = float64(int(time.Since(t0).Seconds()*10)) / 10; t0 = time.Now() }
 	c04Lambda(c)
+	c04Malformed(c)
+	lap("lambda")
 	c04Histories(c)
+	lap("histories")
 	c04Builtins(c)
+	lap("builtins")
+	c.Ev.Coverage["phase_seconds"] = phases
 	sigs := []string{}
 	for _, v := range c.Violations {
 		if len(sigs) < 400 {
@@ -1056,7 +1313,7 @@ func runC04(c *lib.Ctx) {
 	}
 	sort.Strings(keys)
 	c.Ev.Coverage["lambda_contexts"] = keys
-	c.Ev.Coverage["rule"] = "part (i): cases = (lambda-list shape, argument vector) evaluated in up to six call contexts (lambda, defun, shadowing let, funcall, apply, defmacro); sweep = 35 minimal shapes (each parameter kind alone / in pairs) x systematic vectors of length 0..8 (positional counts, all key tails up to 2-3 pairs over declared/unknown/parameter-named keys, all key permutations, duplicates, odd and non-keyword tails), seed independent; composite = the 1680 shapes of the quantifier (thorough: all, quick: 1120 sampled by seed) x systematic + seeded random tails; part (ii): cells = (built-in, argc) for every function of every package, argc 0..documented max+2 (+4,+8,+16,+24 when unbounded). non-trivial = lambda list with >= 2 parameter kinds or argc at min-1, min, max, max+1; distinct by (shape, args) / (builtin, argc)"
+	c.Ev.Coverage["rule"] = "part (i): cases = (lambda-list shape, argument vector) evaluated in up to fourteen call contexts (lambda, defun, shadowing let, funcall, apply, defmacro, multiple-value-call, apply with leading arguments, flavors method via send, CLOS method, two calls through mapcar and map with retained results, :around method chain with call-next-method with and without arguments, flavors whopper with continue-whopper); sweep = 47 minimal shapes (each parameter kind alone / in pairs) x systematic vectors of length 0..8 (positional counts, all key tails up to 2-3 pairs over declared/unknown/parameter-named keys, all key permutations, duplicates, odd and non-keyword tails), seed independent; composite = the 1680 shapes of the quantifier (thorough: all, quick: 800 sampled by seed) x systematic + seeded random tails; every case is also run on the code-level machine (ll impl: Lambda.Call as extracted from lambda.go) which must agree with the model (inside the listed &rest+&key construct: with the split prediction); malformed lambda-list elements (5 kinds x 4 sections x lambda/defun/defmacro) must be rejected at definition; part (ii): cells = (built-in, argc) for every function of every package, argc 0..documented max+2 (+4,+8,+16,+24 when unbounded); part (ii-b): every built-in with a documented &key section (no &rest/&allow-other-keys) x 4 odd key tails (dangling known / unknown / repeated / after a pair) behind a baseline call found from the argument pools. non-trivial = lambda list with >= 2 parameter kinds or argc at min-1, min, max, max+1; distinct by (shape, args) / (builtin, argc)"
 }
 
 func c04DumpFindings(c *lib.Ctx, path string) {
